@@ -6,7 +6,7 @@ cd /repo && git diff --quiet || { echo "/repo dirty"; exit 9; }
 EVSAVE=$(mktemp -d /var/tmp/evsave.XXXXXX); cp -a /verif/evidence/. "$EVSAVE"/ 2>/dev/null
 git -C /repo apply "$P" || { echo "patch does not apply"; exit 9; }
 # on exit: undo the patch and regenerate the tables that are generated from the source (they are committed files)
-trap 'git -C /repo checkout -- . ; git -C /repo status --short | grep -v "^??" ; (cd /verif && PYTHONPATH=/verif /venv/bin/python -c "from harness import extract_tables as E, extract_order as O; E.gen_c01(); E.gen_c12(); E.gen_c16(); O.gen_src()" >/dev/null 2>&1); rm -rf /verif/evidence; mkdir -p /verif/evidence; cp -a "$EVSAVE"/. /verif/evidence/; rm -rf "$EVSAVE"' EXIT
+trap 'git -C /repo checkout -- . ; git -C /repo status --short | grep -v "^??" ; (cd /verif && PYTHONPATH=/verif /venv/bin/python -c "from harness import extract_tables as E, extract_order as O; E.gen_c01(); E.gen_c12(); E.gen_c16(); E.gen_c19(); O.gen_src()" >/dev/null 2>&1); rm -rf /verif/evidence; mkdir -p /verif/evidence; cp -a "$EVSAVE"/. /verif/evidence/; rm -rf "$EVSAVE"' EXIT
 for C in "$@"; do
   out=$(cd /verif && ./check $C $TIER 2>&1); rc=$?
   echo "== $C rc=$rc"; echo "$out" | grep -E "^VIOLATION|^KNOWN|violation:" | cut -c1-300 | head -5
